@@ -139,8 +139,16 @@ def handle (j : Json) : Except String Json := do
       | .fk d => Json.mkObj [("kind", "fk"), ("src", jstr d.src), ("constraint", jopt d.constraint),
           ("src_cols", .arr (d.srcCols.map jstr).toArray), ("dst", jstr d.dst), ("dst_cols", .arr (d.dstCols.map jstr).toArray),
           ("actions", jstr d.actions)]
+      | .index d => Json.mkObj [("kind", "index"), ("unique", .bool d.unique), ("name", jopt d.name), ("table", jstr d.table),
+          ("using", jopt d.method), ("cols", .arr (d.cols.map jstr).toArray)]
     pure (Json.mkObj [("ok", match C03.readScriptAll t with
       | some ds => .arr (ds.map stmt).toArray
+      | none => .null)])
+  | "readindex" =>
+    let t ← strF j "text"
+    pure (Json.mkObj [("ok", match C04.readIndex t with
+      | some d => Json.mkObj [("unique", .bool d.unique), ("name", jopt d.name), ("table", jstr d.table), ("using", jopt d.method),
+          ("cols", .arr (d.cols.map jstr).toArray)]
       | none => .null)])
   | "readfk" =>
     let t ← strF j "text"
